@@ -48,7 +48,11 @@ class Variant:
             self.low = None
             self.fname = 'kind'
             self.interleave = False
+            self.xform = False
         else:
+            # the file carries two field transforms (the first cannot be evaluated and is skipped on its own; the second
+            # strips a wallet prefix every description then carries) and atom A1 is written so that it NEEDS the stripping
+            self.xform = rnd.random() < 0.3
             self.interleave = rnd.random() < 0.6
             self.fname = rnd.choice(FIELD_NAMES)
             self.a1 = rnd.randrange(len(A1_FORMS))
@@ -70,7 +74,7 @@ class Variant:
 
 def atom(a, v):
     if a == 'A1':
-        return A1_FORMS[v.a1]
+        return 'startswith("ALFA")' if v.xform else A1_FORMS[v.a1]
     if a == 'A2':
         return A2_LOW_FORMS[v.low[0]] if v.low else A2_FORMS[v.a2]
     if a == 'AE':
@@ -157,7 +161,8 @@ def file_text(f, v, transform=False):
     for g in f['globals']:
         name = g['n'].upper() if v.upper_names else g['n']
         out.append('%s = %s' % (name, cond(g['c'], v)))
-    if transform:
+    if transform or v.xform:
+        out.append('field.memo = trim(field.nosuchcolumn)')
         out.append('field.description = regex_replace(field.description, "^APLPAY\\\\s+", "")')
     for r in f['rules']:
         out.append('')
@@ -177,7 +182,7 @@ def txn(t, v, prefix=False, extra_token=''):
         return {'description': desc, 'amount': 42.0, 'date': datetime.date(2025, 3, 14), 'field': None,
                 'source': 'Card', 'location': None}
     desc = ('ALFA' if tv['A1'] == 'T' else 'GAMMA') + ' STORE 12' + extra_token
-    if prefix:
+    if prefix or v.xform:
         desc = 'APLPAY ' + desc
     amount = 150.0 if tv['A2'] == 'T' else 50.0
     if v.low:
